@@ -428,16 +428,264 @@ class TmanaBookkeeping(Contract):
         return r.replay_small("tmana")
 
 
-CONTRACTS = [CleanByDistance, PointPairwiseDist, TmanaBookkeeping]
+class _CoordTok:
+    """the coordinate array of candidate idx (only its identity matters to the block)"""
+
+    def __init__(self, seq, idx):
+        self.seq, self.idx = seq, idx
+
+
+class _KeyTok:
+    """tuple(coord): the dictionary / set key of candidate idx (requires: candidate coordinates are pairwise different)"""
+
+    def __init__(self, seq, idx):
+        self.seq, self.idx = seq, idx
+
+
+class _CandSeq(frames._Generic):
+    """scored_coords: the M candidates (coordinate, score), sorted by decreasing score (requires, established by the dropped prefix of the
+    function and monitored in the bounded run); candidate j is identified with its index"""
+
+    def __init__(self, cx):
+        self.M = z3.Int("n_candidates")
+        self.score = z3.Function("cand_score", z3.IntSort(), z3.RealSort())
+        a, b = z3.Ints("a!cs b!cs")
+        cx.assume(self.M >= 1)
+        cx.assume(z3.ForAll([a, b], z3.Implies(z3.And(a >= 0, a < b, b < self.M), self.score(a) > self.score(b))))  # sorted; plateau-free scores (the property's quantifier)
+
+    def __sym_comprehension__(self, kind, target, parts):
+        if kind == "list" and target == "(coord, score)" and parts == ("coord",):
+            return ("all-coords", self)
+        if kind == "dict" and target == "(coord, score)" and parts == ("tuple(coord)", "score"):
+            return _ScoreDict(self)
+        raise sym.Unsupported(f"comprehension over the candidates: {kind} {parts}")
+
+    def __getitem__(self, k):
+        kt = to_z3(k)
+        ctx().oblige("safe.index-in-range", z3.And(kt >= 0, kt < self.M), kind="safe", detail="scored_coords[index]")
+        return (_CoordTok(self, kt), SV(self.score(kt)))
+
+    def __generic_for__(self, interp, st, env):
+        import ast
+        if not (isinstance(st.target, ast.Tuple) and [e.id for e in st.target.elts] == ["coord", "score"]):
+            raise sym.Unsupported("candidate loop target")
+        spec = ctx().inv_spec_factory(self, env)
+
+        def bind_at(e, k):
+            e.vars["coord"], e.vars["score"] = _CoordTok(self, k), SV(self.score(k))
+        kernels.run_invariant_loop(interp, st, env, SV(self.M), bind_at, spec, label="suppress")
+
+
+class _ScoreDict:
+    def __init__(self, seq):
+        self.seq = seq
+
+    def keys(self):
+        return ("all-keys", self.seq)
+
+    def __getitem__(self, k):
+        if not (isinstance(k, _KeyTok) and k.seq is self.seq):
+            raise sym.Unsupported("coord_to_score lookup form")
+        return SV(self.seq.score(k.idx))
+
+
+class _RemSet(kernels.FnArr):
+    """remaining_coords: a set of candidate keys, represented by its membership function over the candidate index"""
+
+    def __sym_contains__(self, k):
+        if not isinstance(k, _KeyTok):
+            raise sym.Unsupported("membership of something else than a candidate key")
+        return SB(self.f(k.idx))
+
+    def remove(self, k):
+        if not isinstance(k, _KeyTok):
+            raise sym.Unsupported("remove form")
+        gs = list(getattr(ctx(), "guard_mode", None) or [])
+        # set.remove raises KeyError for a missing key
+        ctx().oblige("safe.remove-existing-key", z3.Implies(z3.And(*gs) if gs else z3.BoolVal(True), self.f(k.idx)), kind="safe", detail="set.remove of a key that is not in the set raises KeyError")
+        self[SV(k.idx)] = False
+
+
+class _CandTree:
+    """assumed contract of scipy.spatial.KDTree(coords).query_ball_point(coord_k, r): the indices nb (each once) with |coord_nb - coord_k| <= r"""
+    DIST = z3.Function("cand_dist", z3.IntSort(), z3.IntSort(), z3.RealSort())
+
+    def __init__(self, pts):
+        if not (isinstance(pts, tuple) and pts[0] == "all-coords"):
+            raise sym.Unsupported("KDTree over something else than the candidates' coordinates")
+        self.seq = pts[1]
+
+    def query_ball_point(self, c, r, **k):
+        if not (isinstance(c, _CoordTok) and c.seq is self.seq):
+            raise sym.Unsupported("ball query form")
+        return _Ball(self, c.idx, r)
+
+
+class _Ball(frames._Generic):
+    def __init__(self, tree, centre, r):
+        self.tree, self.centre, self.r = tree, centre, r
+
+    def __generic_for__(self, interp, st, env):
+        """`for nb in ball:` -- the body is executed once for the generic member nb in guarded mode; stores into the remaining-set are lifted
+        to all members of the ball at loop exit"""
+        cx = ctx()
+        nb = cx.fresh("nb", "Int")
+        M = self.tree.seq.M
+        dom = z3.And(nb >= 0, nb < M, _CandTree.DIST(self.centre, nb) <= sym.real(to_z3(self.r)))
+        rems = [v for v in _all_values(env) if isinstance(v, _RemSet)]
+        for r_ in rems:
+            r_.recording = []
+        cx.ball_queries = getattr(cx, "ball_queries", []) + [(self.centre, self.r)]
+        old_gm = getattr(cx, "guard_mode", None)
+        cx.guard_mode = []
+        n_pc = len(cx.pc)
+        cx.pc.append((dom, st.lineno, "domain"))
+        cx._solver = None
+        try:
+            env.vars[st.target.id] = SV(nb)
+            interp.block(st.body, env)
+        finally:
+            cx.guard_mode = old_gm
+            del cx.pc[n_pc:]
+            cx._solver = None
+        for r_ in rems:
+            kernels.lift_stores(r_, nb, dom)
+        env.vars[st.target.id] = kernels.Poison("loop variable after the loop over the ball") if hasattr(kernels, "Poison") else None
+
+
+def _all_values(env):
+    out, e = [], env
+    while e is not None:
+        out += list(e.vars.values())
+        e = e.parent
+    return out
+
+
+class PeakSpec(kernels.InvSpec):
+    """invariant of the suppression loop after the k best candidates have been visited"""
+    state = {"remaining_coords": "Bool", "filtered_coords": "Bool"}
+    ghosts = {"killer": "Int"}
+
+    def __init__(self, seq, r):
+        self.q, self.r = seq, r
+
+    def inv(self, k, S, G):
+        rem, kept, kl = S["remaining_coords"], S["filtered_coords"], G["killer"]
+        D, M, sc, r = _CandTree.DIST, self.q.M, self.q.score, self.r
+        i, j = z3.Ints("i!pk j!pk")
+        rng = lambda x: z3.And(x >= 0, x < M)
+        return [
+            ("only_visited_candidates_are_kept", z3.ForAll([i], z3.Implies(z3.And(rng(i), kept(i)), i < k))),
+            ("a_visited_candidate_is_kept_or_was_not_remaining", z3.ForAll([i], z3.Implies(z3.And(rng(i), i < k), z3.Or(kept(i), z3.Not(rem(i)))))),
+            ("kept_candidate_has_cleared_its_ball", z3.ForAll([j, i], z3.Implies(z3.And(rng(j), rng(i), i != j, kept(j), D(j, i) <= r), z3.Not(rem(i))))),
+            ("every_candidate_that_is_neither_remaining_nor_kept_has_a_kept_dominating_neighbour",
+             z3.ForAll([i], z3.Implies(z3.And(rng(i), z3.Not(rem(i)), z3.Not(kept(i))), z3.And(kl(i) >= 0, kl(i) < M, kept(kl(i)), D(kl(i), i) <= r, sc(kl(i)) >= sc(i))))),
+            ("kept_candidates_are_farther_apart_than_the_diameter", z3.ForAll([i, j], z3.Implies(z3.And(rng(i), rng(j), i != j, kept(i), kept(j)), D(i, j) > r))),
+            ("before_the_first_visit_every_candidate_is_remaining", z3.Implies(k == 0, z3.ForAll([i], z3.Implies(rng(i), rem(i))))),
+            ("the_best_candidate_is_kept_once_visited", z3.Implies(k >= 1, kept(0))),
+        ]
+
+    def ghost_step(self, k, S0, S1, G0):
+        # candidates removed in this iteration (other than the visited one, which is kept) are dominated by the visited candidate k
+        return {"killer": (lambda i, f=G0["killer"]: z3.If(z3.And(S0["remaining_coords"](i), z3.Not(S1["remaining_coords"](i)), z3.Not(S1["filtered_coords"](i))), k, f(i)))}
+
+
+class TmanaSuppression(Contract):
+    """scores_extract_particles, block from `tree = KDTree(...)` to the end of the loop over the score-sorted candidates: the kept candidates are
+    pairwise farther apart than the particle diameter and every candidate is kept or lies within the diameter of a kept one with an equal or higher score"""
+    prop = "C07"
+    module = "tmana"
+    qual = "scores_extract_particles"
+
+    def cfg_name(self, cfg):
+        return "block=suppression"
+
+    def bind(self, cx, cfg):
+        from vfw.interp import Interp
+        seq = _CandSeq(cx)
+        diam = SV(z3.Real("particle_diameter"))
+        cx.assume(diam.t > 0)
+        a, b = z3.Ints("a!d b!d")
+        D = _CandTree.DIST
+        cx.axiom("Euclidean distance between candidate voxels: symmetric, zero only for the same candidate (coordinates are pairwise different)",
+                 z3.ForAll([a, b], z3.And(D(a, b) == D(b, a), D(a, b) >= 0, (D(a, b) == 0) == (a == b))))
+        rec = {}
+
+        def mkset(*x):
+            if len(x) == 1 and isinstance(x[0], tuple) and x[0][0] == "all-keys":
+                s = _RemSet(lambda i: z3.BoolVal(True), SV(seq.M), "Bool", "remaining_coords")
+                rec["rem"] = s
+                return s
+            return set(*x)
+
+        def mktuple(*x):
+            if len(x) == 1 and isinstance(x[0], _CoordTok):
+                return _KeyTok(x[0].seq, x[0].idx)
+            return tuple(*x)
+
+        def mktree(p):
+            t = _CandTree(p)
+            rec["tree"] = t
+            return t
+        cx.inv_spec_factory = lambda q, env: PeakSpec(q, diam.t)
+        g = common.base_globals()
+        g.update({"KDTree": mktree, "set": mkset, "tuple": mktuple})
+        it = Interp("tmana", g)
+        f = it.block_function("scores_extract_particles", lambda s: s.startswith("tree = KDTree("), lambda s: s.startswith("for (coord, score) in scored_coords:") or s.startswith("for coord, score in scored_coords:"),
+                              ["scored_coords", "particle_diameter"], ["filtered_coords", "remaining_coords"])
+
+        def thunk():
+            rec.clear()
+            out = f(seq, diam)
+            return dict(rec, out=out, queries=list(getattr(ctx(), "ball_queries", [])))
+        return thunk, {"seq": seq, "diam": diam}
+
+    def post(self, cx, cfg, inp, res):
+        q, r = inp["seq"], inp["diam"].t
+        kept_log = res["out"][0]
+        cl = [("kept_list_is_a_log_of_the_loop", z3.BoolVal(isinstance(kept_log, kernels.AppendLog)))]
+        ex = getattr(cx, "loop_exit", {}).get("suppress")
+        if ex is None or not isinstance(kept_log, kernels.AppendLog):
+            return cl + [("suppression_loop_verified_by_invariant", z3.BoolVal(False))]
+        kept = ex["S"]["filtered_coords"]
+        kl = ex["G"]["killer"]
+        D, M, sc = _CandTree.DIST, q.M, q.score
+        i, j = z3.Ints("i!pp j!pp")
+        rng = lambda x: z3.And(x >= 0, x < M)
+        vals_ok = all(isinstance(v, tuple) and len(v) == 2 and isinstance(v[0], _CoordTok) and v[0].idx.eq(k) and isinstance(v[1], SV) and v[1].t.eq(sc(k)) for k, v, _ in kept_log.values)
+        cl += [("appended_pair_is_the_visited_candidate_with_its_score", z3.BoolVal(bool(vals_ok))),
+               ("ball_queries_use_the_visited_candidate_and_the_particle_diameter", z3.BoolVal(all(z3.is_true(z3.simplify(sym.real(to_z3(rr)) == r)) for c_, rr in res["queries"]) and len(res["queries"]) == len(kept_log.values))),
+               ("kept_peaks_are_farther_apart_than_the_particle_diameter", z3.ForAll([i, j], z3.Implies(z3.And(rng(i), rng(j), i != j, kept(i), kept(j)), D(i, j) > r)), ()),
+               ("every_candidate_is_kept_or_within_the_diameter_of_a_kept_one_with_equal_or_higher_score",
+                z3.ForAll([i], z3.Implies(z3.And(rng(i), z3.Not(kept(i))), z3.And(rng(kl(i)), kept(kl(i)), D(kl(i), i) <= r, sc(kl(i)) >= sc(i)))), ()),
+               ("the_best_candidate_is_kept", kept(0), ())]
+        return cl
+
+    def cross(self, cfg, paths):
+        n_app = sum(1 for cx, inputs, out in paths if out[0] == "return" and isinstance(out[1]["out"][0], kernels.AppendLog) and out[1]["out"][0].values)
+        return [("both_outcomes_of_the_visit_reachable", [], z3.BoolVal(len(paths) >= 2 and n_app >= 1))]
+
+    def replay(self, clause, model, cfg):
+        from rtc import c07 as r
+        return r.replay_small("tmana")
+
+
+CONTRACTS = [CleanByDistance, PointPairwiseDist, TmanaBookkeeping, TmanaSuppression]
 LEVEL = "other"
 EXPLANATION = ("Motl.clean_by_distance on the real AST: the loop over groups as an arbitrary iteration, the greedy loop over the argsort order by a quantified inductive invariant (visited kept particles have cleared their "
                "neighbourhood; every removed particle has a kept, earlier-ranked 'killer' within d - ghost function), exit facts give separation, domination with equal-or-better score and group isolation; "
-               "geom.point_pairwise_dist against its Euclidean spec. Bounded run-time contract in addition: separation, domination by an at-least-as-good remaining particle of the same group, group isolation and row preservation for Motl.clean_by_distance; "
-               "threshold, separation, domination, score / 1-based position / angle lookup for tmana.scores_extract_particles on plateau-free maps")
-ASSUMPTIONS = ["exact-distance ties are excluded (requires, as in the property's quantifier); real arithmetic for distances and scores",
+               "geom.point_pairwise_dist against its Euclidean spec. tmana.scores_extract_particles block-wise (blocks extracted mechanically from the function's AST on every run): the suppression loop over the "
+               "score-sorted candidates by an inductive invariant (kept peaks farther apart than the diameter; every candidate kept or within the diameter of a kept one with an equal or higher score; inner loop over the "
+               "ball-query result executed in guarded mode and lifted to all members), and the bookkeeping block (every kept candidate becomes a particle with its score, voxel index + 1 and the Euler angles of the "
+               "angle-list row its angle-map entry minus the numbering base points to, index safety of both lookups). The function's prefix (threshold, np.where, argpartition / argsort, sorted) is not under contract: "
+               "the blocks' requires (candidates = exactly the voxels above the threshold, sorted by decreasing score, pairwise different, carrying their voxel's score) are monitored on every real call of the bounded run, "
+               "which also checks all clauses end to end on generated maps (incl. thresholds equal to a voxel value).")
+ASSUMPTIONS = ["exact-distance ties are excluded (requires, as in the property's quantifier); plateau-free scores (requires, as in the quantifier); real arithmetic for distances and scores",
                "assumed callee contracts: np.argsort (ascending permutation with inverse), np.unique(column) iterated as an arbitrary group value, Motl.get_motl_subset (rows of the group in order, index reset; proved under C08), "
                "pd.concat((acc, piece)) appends the piece, boolean-mask .iloc selects exactly the marked rows; geom.point_pairwise_dist is used through its own contract (PointPairwiseDist + symmetry lemma)",
-               "tmana.scores_extract_particles is NOT under contract (KD-tree / DBSCAN / set-of-tuples monolith): bounded run only"]
+               "tmana blocks: scipy KDTree.query_ball_point returns each index within distance <= r once; sklearn DBSCAN(min_samples=1) labels every point >= 0; cryomotl.Motl().fill receives the dictionary; "
+               "a dictionary / set keyed by tuple(coord) identifies candidates (pairwise different coordinates); the statements before / between / after the two blocks are dropped from the verified text and covered by "
+               "the monitored requires and the bounded run"]
 
 
 def run(ck):
